@@ -7,8 +7,8 @@ double __CPROVER_uninterpreted_key_d(lambda_t, CgroupContext);
 #ifdef UNIT_SORT
 #define KEYF(k, c) __CPROVER_uninterpreted_key_d(k, c)       /* any key functor */
 #else
-double KillIOCost__rankForKilling__lambda_1(CgroupContext cgroup_ctx);
-#define KEYF(k, c) KillIOCost__rankForKilling__lambda_1(c)  /* calling the closure kill_by_io_cost passes */
+double KillIOCost__rankForKilling__lambda_sortDescWithKillPrefs(CgroupContext cgroup_ctx);
+#define KEYF(k, c) KillIOCost__rankForKilling__lambda_sortDescWithKillPrefs(c)  /* calling the closure kill_by_io_cost passes */
 #endif
 /* io_cost_rate() this tick */
 int __CPROVER_uninterpreted_ior_has(CgroupContext); double __CPROVER_uninterpreted_ior_val(CgroupContext);
@@ -17,8 +17,8 @@ opt_double CgroupContext__io_cost_rate(CgroupContext c) { opt_double o; o.has = 
 #include "kill_sort.h"
 
 #include "kill_sort_proofs.h"
-#define LAMBDA_ID__KillIOCost__rankForKilling__lambda_1 ((lambda_t)1)
-double KillIOCost__rankForKilling__lambda_1(CgroupContext cgroup_ctx)
+#define LAMBDA_ID__KillIOCost__rankForKilling__lambda_sortDescWithKillPrefs ((lambda_t)1)
+double KillIOCost__rankForKilling__lambda_sortDescWithKillPrefs(CgroupContext cgroup_ctx)
   __CPROVER_requires(ghost_exc == 0) __CPROVER_assigns()
   __CPROVER_ensures(__CPROVER_equal(__CPROVER_return_value, DOC_KEY(cgroup_ctx)) && ghost_exc == 0) /*@C09*/;
 #define DOC_BETTER(x, f) (PREF(x) > PREF(f) || (PREF(x) == PREF(f) && DOC_KEY(x) > DOC_KEY(f)))
@@ -30,5 +30,5 @@ vec_CgroupContext KillIOCost__rankForKilling(KillIOCost *self, OomdContext *ctx,
   __CPROVER_ensures(cgroups.n == 0 || (g_s0 < cgroups.n && vec_CgroupContext__elem(__CPROVER_return_value.vid, 0) == ELEM(cgroups.vid, g_s0))) /*@C09*/
   /* first choice: no sibling of higher preference, and none of equal preference with a larger io-cost increase */
   __CPROVER_ensures(cgroups.n == 0 || g_w >= cgroups.n || !DOC_BETTER(ELEM(cgroups.vid, g_w), vec_CgroupContext__elem(__CPROVER_return_value.vid, 0))) /*@C09*/;
-void h_key(void) { CgroupContext c; HAVOC_SORT(); KillIOCost__rankForKilling__lambda_1(c); CANARY; }
+void h_key(void) { CgroupContext c; HAVOC_SORT(); KillIOCost__rankForKilling__lambda_sortDescWithKillPrefs(c); CANARY; }
 void h_rank(void) { KillIOCost *s; OomdContext *x; vec_CgroupContext v; HAVOC_SORT(); KillIOCost__rankForKilling(s, x, v); CANARY; }
